@@ -358,6 +358,140 @@ theorem genErrorResponse_tr (code : Int) :
     genErrorResponse code = (true, [("new dns.Msg", []), ("SetRcode", ["_", toString code])]) := by
   simp [genErrorResponse]
 
+/-! ## Round 4: the server around the write paths, as translated -/
+
+/-- The model's `Accept` as the library's `dns.MsgAcceptAction` constants. -/
+def acceptCode : Agd.Normalize.Accept → Int
+  | .accept => 0 | .reject => 1 | .ignore => 2 | .notImp => 3
+
+/-- `ServerBase.acceptMsg` of the source is the model's `acceptMsg`, for every header. -/
+theorem acceptMsg_tr (s : S_dnsserver_ServerBase) (resp : Bool) (opcode nq nans nns : Nat) :
+    acceptMsg s resp opcode nq nans nns =
+      acceptCode (Agd.Normalize.acceptMsg
+        { response := resp, opcode := opcode, nq := nq, nans := nans, nns := nns }) := by
+  unfold acceptMsg Agd.Normalize.acceptMsg
+  cases resp
+  · by_cases h0 : opcode = 0 <;> by_cases h4 : opcode = 4 <;> by_cases h1 : nq = 1 <;>
+      by_cases ha : nans > 1 <;> by_cases hn : nns > 1 <;>
+      simp [acceptCode, h0, h4, h1, ha, hn] <;> omega
+  · simp [acceptCode]
+
+example (s : S_dnsserver_ServerBase) : acceptMsg s false 0 1 0 0 = 0 ∧ acceptMsg s false 0 2 0 0 = 1 ∧
+    acceptMsg s true 0 1 0 0 = 2 ∧ acceptMsg s false 5 1 0 0 = 3 ∧ acceptMsg s false 4 1 1 1 = 0 := by
+  simp [acceptMsg]
+
+/-- `serveDNSMsgInternal`, rejected queries: exactly one response is made — FORMERR (1) for a
+malformed query, NOTIMP (4) for an unsupported opcode — and written through the transport's writer
+(hence normalised like any response); the handler is not called.  An ignored message (QR bit set)
+causes nothing at all. -/
+theorem serve_rejects (s : S_dnsserver_ServerBase) (rw : Option S_dnsserver_RecorderResponseWriter)
+    (w1 h w2 : Option String) (g2 g3 : AbsPtr) (nc : Bool) :
+    serveDNSMsgInternal s rw 1 true w1 h g2 nc w2 g3 =
+      [("acceptMsg", ["_"]), ("genErrorResponse", ["_", toString (1 : Int)]), ("WriteMsg", ["_", "_", "_"])] ∧
+    serveDNSMsgInternal s rw 3 true w1 h g2 nc w2 true =
+      [("acceptMsg", ["_"]), ("genErrorResponse", ["_", toString (4 : Int)]), ("WriteMsg", ["_", "_", "_"])] ∧
+    serveDNSMsgInternal s rw 2 g3 w1 h g2 nc w2 g3 = [("acceptMsg", ["_"])] := by
+  refine ⟨?_, ?_, ?_⟩ <;> cases w1 <;> simp [serveDNSMsgInternal]
+
+/-- `serveDNSMsgInternal`, accepted queries: the handler is called once; if it returns no error the
+server writes nothing itself; if it returns an error the server makes a SERVFAIL (2), adds the
+extended error "network error" (23, empty text) iff the error is a non-critical network error, and
+writes it through the same writer. -/
+theorem serve_accepted (s : S_dnsserver_ServerBase) (rw : Option S_dnsserver_RecorderResponseWriter)
+    (w1 w2 : Option String) (g1 g2 g3 : AbsPtr) (nc : Bool) (e : String) :
+    serveDNSMsgInternal s rw 0 g1 w1 none g2 nc w2 g3 = [("acceptMsg", ["_"]), ("ServeDNS", ["_", "_", "_"])] ∧
+    names (serveDNSMsgInternal s rw 0 g1 w1 (some e) g2 nc w2 g3) =
+      ["acceptMsg", "ServeDNS", "genErrorResponse", "isNonCriticalNetError"] ++
+        (if nc then ["addEDE"] else []) ++ ["WriteMsg"] ∧
+    argsOf "genErrorResponse" (serveDNSMsgInternal s rw 0 g1 w1 (some e) g2 nc w2 g3) =
+      [["_", toString (2 : Int)]] ∧
+    (nc = true → argsOf "addEDE" (serveDNSMsgInternal s rw 0 g1 w1 (some e) g2 nc w2 g3) =
+      [["_", "_", toString (23 : Int), ""]]) := by
+  refine ⟨?_, ?_, ?_, ?_⟩
+  · simp [serveDNSMsgInternal]
+  · cases nc <;> cases w2 <;> simp [serveDNSMsgInternal, names]
+  · cases nc <;> cases w2 <;> simp [serveDNSMsgInternal, argsOf]
+  · intro h; subst h; cases w2 <;> simp [serveDNSMsgInternal, argsOf]
+
+/-- `addEDE`: nothing for a query without OPT; otherwise an OPT record is made with `SetEdns0` only
+when the response has none, and the extended-error option is appended to it. -/
+theorem addEDE_tr (code : Int) (text : String) (respOpt made : AbsPtr) :
+    addEDE code text false respOpt made = [] ∧
+    names (addEDE code text true respOpt made) =
+      (if respOpt then [] else ["SetEdns0"]) ++ ["set respOpt.Option"] := by
+  cases respOpt <;> simp [addEDE, names]
+
+/-- `NetworkFromAddr`: "udp" and "tcp" map to themselves, anything else panics. -/
+theorem networkFromAddr_tr (n : String) :
+    NetworkFromAddr n = if n = "udp" then some "udp" else if n = "tcp" then some "tcp" else none := by
+  unfold NetworkFromAddr
+  by_cases h1 : n = "udp" <;> by_cases h2 : n = "tcp" <;> simp [h1, h2]
+
+/-- DNSCrypt: whether the handler wrote or not, the message handed to the library is normalised
+exactly once, with the network of the local address, protocol DNSCrypt (9) and the cap 65535 — the
+"configured maximum" of DNSCrypt/UDP is that constant — and only then written; a silent handler gets
+a SERVFAIL (2) which is normalised like any other response. -/
+theorem dnscrypt_write_path (h : S_dnsserver_dnsCryptHandler) (rc : AbsPtr × AbsPtr) (ctx : AbsPtr)
+    (nrw : Option S_dnsserver_NonWriterResponseWriter) (written : Bool) (m g : AbsPtr) (network : String)
+    (w : Option String) :
+    let r := dnscrypt_ServeDNS h rc ctx nrw written m network w g
+    argsOf "normalize" r.2 = [[network, toString (9 : Int), "_", "_", toString (65535 : Int)]] ∧
+      names (after "normalize" r.2) = ["WriteMsg"] ∧ "WriteMsg" ∉ names (before "normalize" r.2) ∧
+      r.1 = w ∧
+      (argsOf "genErrorResponse" r.2 = if written then [] else [["_", toString (2 : Int)]]) := by
+  cases written <;> simp only [dnscrypt_ServeDNS, Bool.false_eq_true, ↓reduceIte] <;>
+    generalize toString (9 : Int) = nine <;> generalize toString (65535 : Int) = cap <;>
+    generalize toString (2 : Int) = two <;>
+    simp [argsOf, names, after, before]
+
+/-- Hence the limit DNSCrypt/UDP truncates to is max(512, advertised) for every 16-bit size. -/
+theorem dnscrypt_udp_limit (edns : Int) (h : edns ≤ 65535) :
+    Agd.Gen.TrC08.maxDNSSize "udp" edns 65535 = max 512 edns := by
+  unfold Agd.Gen.TrC08.maxDNSSize; simp; omega
+
+/-- Plain UDP: `WriteMsg` normalises first, with network `udp`, protocol DNS (8) and the writer's
+`maxRespSize` (the configured `MaxUDPRespSize`) as the cap; the response is packed only afterwards. -/
+theorem udp_write_path (r : S_dnsserver_udpResponseWriter) (bufp : AbsPtr)
+    (pk : List Int × Option String) (e : Option String) :
+    (udp_WriteMsg r bufp pk e).2.head? =
+      some ("normalize", ["udp", toString (8 : Int), "_", "_", toString r.maxRespSize]) ∧
+    argsOf "normalize" (udp_WriteMsg r bufp pk e).2 =
+      [["udp", toString (8 : Int), "_", "_", toString r.maxRespSize]] ∧
+    "PackBuffer" ∈ names (after "normalize" (udp_WriteMsg r bufp pk e).2) ∧
+    (pk.2.isSome → "withWriteDeadline" ∉ names (udp_WriteMsg r bufp pk e).2) := by
+  cases h : pk.2 <;>
+    simp only [udp_WriteMsg, h, Option.isSome_none, Option.isSome_some, Bool.false_eq_true, ↓reduceIte] <;>
+    generalize toString (8 : Int) = eight <;> generalize toString r.maxRespSize = cap <;>
+    generalize toString r.writeTimeout = wt <;>
+    simp [argsOf, names, after]
+
+/-- TCP / DoT: `WriteMsg` normalises as TCP, then adds the keep-alive option, then packs with the
+length-guarded `packWithPrefix`; when that refuses the message nothing is written to the connection
+(the error goes back to the handler). -/
+theorem tcp_write_path (r : S_dnsserver_tcpResponseWriter) (si : Option S_dnsserver_ServerInfo)
+    (bufp : AbsPtr) (pk : List Int × Option String) (e : Option String) :
+    names ((tcp_WriteMsg r si bufp pk e).2.take 5) =
+      ["MustServerInfoFromContext", "normalizeTCP", "addTCPKeepAlive", "Get", "packWithPrefix"] ∧
+    (pk.2.isSome → "withWriteDeadline" ∉ names (tcp_WriteMsg r si bufp pk e).2 ∧
+      (tcp_WriteMsg r si bufp pk e).1 = e) ∧
+    (pk.2 = none → "withWriteDeadline" ∈ names (tcp_WriteMsg r si bufp pk e).2) := by
+  cases h : pk.2 <;>
+    simp only [tcp_WriteMsg, h, Option.isSome_none, Option.isSome_some, Bool.false_eq_true, ↓reduceIte] <;>
+    generalize toString r.writeTimeout = wt <;>
+    simp [names]
+
+/-- DoQ: a query `validQUICMsg` rejects (one that carries edns-tcp-keepalive) closes the connection
+with DOQ_PROTOCOL_ERROR before the handler runs; nothing is normalised, packed or written. -/
+theorem doq_invalid_msg (s : S_dnsserver_ServerQUIC) (m : AbsPtr) (la ra : AbsPtr)
+    (rw : Option S_dnsserver_NonWriterResponseWriter) (written : Bool) (gen bufp : AbsPtr)
+    (pk : List Int × Option String) (w : Int × Option String) (rmsg : AbsPtr) :
+    let r := doq_serveQUICStream s (m, none) false la ra rw written gen bufp pk w rmsg
+    "serveDNSMsg" ∉ names r.2 ∧ "Write" ∉ names r.2 ∧ "packWithPrefix" ∉ names r.2 ∧
+      "closeQUICConn" ∈ names r.2 ∧ r.1.isSome := by
+  simp only [doq_serveQUICStream]
+  generalize toString (2 : Int) = two
+  simp [names]
+
 end Agd.Tie.TrC08
 
 #print axioms Agd.Tie.TrC08.translation_complete
@@ -392,3 +526,13 @@ end Agd.Tie.TrC08
 #print axioms Agd.Tie.TrC08.doh_normalizes_first
 #print axioms Agd.Tie.TrC08.doh_no_size_guard
 #print axioms Agd.Tie.TrC08.genErrorResponse_tr
+#print axioms Agd.Tie.TrC08.acceptMsg_tr
+#print axioms Agd.Tie.TrC08.serve_rejects
+#print axioms Agd.Tie.TrC08.serve_accepted
+#print axioms Agd.Tie.TrC08.addEDE_tr
+#print axioms Agd.Tie.TrC08.networkFromAddr_tr
+#print axioms Agd.Tie.TrC08.dnscrypt_write_path
+#print axioms Agd.Tie.TrC08.dnscrypt_udp_limit
+#print axioms Agd.Tie.TrC08.udp_write_path
+#print axioms Agd.Tie.TrC08.tcp_write_path
+#print axioms Agd.Tie.TrC08.doq_invalid_msg
